@@ -34,6 +34,12 @@ Definition cells_where (bad : AnyLayout -> KeyCode -> Modifiers -> HandleControl
   flat_map (fun l => flat_map (fun k => flat_map (fun m => flat_map (fun hc =>
     if bad l k m hc then [(l, k, m, hc)] else []) all_HandleControl) all_Modifiers) all_KeyCode) all_AnyLayout.
 
+(* one representative cell per (layout, key) *)
+Definition same_lk (c d : cell) : bool :=
+  let '(l, k, _, _) := c in let '(l', k', _, _) := d in AnyLayout_eqb l l' && KeyCode_eqb k k'.
+Definition per_key (cs : list cell) : list cell :=
+  fold_left (fun acc c => if existsb (same_lk c) acc then acc else acc ++ [c]) cs [].
+
 Definition enc_cell (c : cell) : list N :=
   let '(l, k, m, hc) := c in [AnyLayout_idx l; KeyCode_tag k; bits_of_mods m; HandleControl_tag hc].
 
